@@ -131,7 +131,7 @@ def run(tier, seed):
     # the verifier's side of the same expression: Trace_Verifier.tla evaluates the constraints on the out-of-domain frame of real
     # proofs (challenges as the verifier drew them) and compares with the H(z) reduced from the columns the prover sent
     vm = vmodel.run(tier, seed, stmts0, wd)
-    vmodel.judge(v, vm, ("ood", "coefficients") + vmodel.PROVER, PID)
+    vmodel.judge(v, vm, ("ood", "coefficients") + vmodel.PROVER + vmodel.OODX, PID)
     states += vm["states"]
     trans += vm["transitions"]
     accepted += vm["accepted"]
